@@ -68,11 +68,14 @@ def gen_search_patterns(rng, tree, vpattern, pep_ok, count, first_marker, allow_
     for _ in range(count):
         m = "@k%d" % marker_no
         marker_no += 1
-        shape = rng.choice(["A", "A", "B", "B", "C", "C", "D", "E", "E", "G", "H", "Q"])
-        if shape == "C" and not pep_ok:
+        shape = rng.choice(["A", "A", "B", "B", "C", "C", "D", "E", "E", "G", "H", "Q", "K"])
+        if shape in ("C", "K") and not pep_ok:
             shape = "A"
-        if is_legacy and shape in ("G", "Q"):
+        if shape == "K" and not pep_friendly(vpattern):
+            shape = "A"      # F13 territory (derived PEP 440 pattern of non-dot separators), C15's LIFE reaches it through shape C
+        if is_legacy and shape in ("G", "Q", "K"):
             shape = "B"
+        more = []
         if shape == "A":
             prefix, region, suffix = m + ": ", "{version}", ""
         elif shape == "B":
@@ -83,6 +86,12 @@ def gen_search_patterns(rng, tree, vpattern, pep_ok, count, first_marker, allow_
             prefix, region, suffix = style[0], "{pep440_version}", style[1]
         elif shape == "D":
             prefix, region, suffix = m + " v=", vpattern, rng.choice(["", ";", '"'])
+        elif shape == "K":
+            # one pattern that shows the version twice, in both spellings (README: badge / install lines)
+            first, second = rng.choice([("{version}", "{pep440_version}"), ("{pep440_version}", "{version}"),
+                                        ("{version}", "{version}")])
+            prefix, region, suffix = m + " pkg ", first, ")"
+            more = [(rng.choice([" (pip install pkg==", " / tag ", " (see "]), second)]
         elif shape == "Q":
             # a pattern that itself begins and ends with a quote character (the quotes are pattern text in every syntax)
             q = rng.choice(["'", '"'])
@@ -101,7 +110,12 @@ def gen_search_patterns(rng, tree, vpattern, pep_ok, count, first_marker, allow_
             else:
                 p1 = _alt_spelling(rng, rng.choice(names))
                 region = p1
-                if len(names) > 1 and rng.random() < 0.5 and not is_legacy:
+                twin = {"MM": "0M", "0M": "MM", "DD": "0D", "0D": "DD", "JJJ": "00J", "00J": "JJJ", "WW": "0W", "0W": "WW",
+                        "UU": "0U", "0U": "UU", "VV": "0V", "0V": "VV"}.get(p1)
+                if twin and not is_legacy and rng.random() < 0.25:
+                    # the same field in its two spellings within one pattern ("2024-03 (3/2024)")
+                    region = p1 + rng.choice(["/", " of ", " - "]) + twin
+                elif len(names) > 1 and rng.random() < 0.5 and not is_legacy:
                     cand = [n for n in names if rp.PARTS[n][0] != rp.PARTS[p1][0]]
                     if cand:
                         p2 = _alt_spelling(rng, rng.choice(cand))
@@ -109,11 +123,11 @@ def gen_search_patterns(rng, tree, vpattern, pep_ok, count, first_marker, allow_
                 style = rng.choice([("%s (c) " % m, " corp"), ("%s docs/" % m, "/index"), ("%s <" % m, ">"),
                                     ("%s stamp " % m, "")])
                 prefix, suffix = style
-        raw = prefix + region + suffix
+        raw = prefix + region + "".join(mid + reg for mid, reg in more) + suffix
         if ini and not configsyn.ini_expressible_pattern(raw):
-            prefix, region, suffix = m + ": ", "{version}", ""
+            prefix, region, suffix, more = m + ": ", "{version}", "", []
             raw = prefix + region + suffix
-        out.append({"raw": raw, "prefix": prefix, "region": region, "suffix": suffix})
+        out.append({"raw": raw, "prefix": prefix, "region": region, "suffix": suffix, "more": more})
     return out
 
 
@@ -143,6 +157,9 @@ def gen_file(rng, path, pats, mode, regime, digits_ok=True):
             segs.append(before + rng.choice([" ", "\t", "(", '"']))
         segs.append(unescape(p["prefix"]))
         segs.append({"slot": p["region"], "pat": idx})
+        for mid, reg in p.get("more", []):
+            segs.append(unescape(mid))
+            segs.append({"slot": reg, "pat": idx})
         after_suffix = unescape(p["suffix"])
         # a second, different pattern on the same line
         if i + 1 < len(occ) and occ[i + 1] != idx and rng.random() < 0.3:
@@ -151,6 +168,9 @@ def gen_file(rng, path, pats, mode, regime, digits_ok=True):
             segs.append(mid)
             segs.append(unescape(p2["prefix"]))
             segs.append({"slot": p2["region"], "pat": occ[i + 1]})
+            for mid, reg in p2.get("more", []):
+                segs.append(unescape(mid))
+                segs.append({"slot": reg, "pat": occ[i + 1]})
             after_suffix = unescape(p2["suffix"])
             i += 1
             shared += 1
@@ -177,6 +197,45 @@ def gen_file(rng, path, pats, mode, regime, digits_ok=True):
             first.insert(0, "﻿")
     return {"path": path, "patterns": [p["raw"] for p in pats], "lines": out_lines, "regime": regime,
             "shared_lines": shared}
+
+
+def gen_overlap_file(rng, path, regime):
+    """A file with the two bare patterns {version}, {pep440_version} and several occurrences per line."""
+    sep = {"lf": "\n", "crlf": "\r\n", "cr": "\r"}[regime]
+    joins = [" and ", " (pip install pkg==", "; the docs of ", ", see ", " / "]
+    heads = ["Release ", "Install: pkg==", "* ", "latest = ", "(", ""]
+    tails = ["", " is out.", ")", " are listed below.", ";"]
+    kinds = ["{version}", "{pep440_version}"]
+    rows = [["{version}"], ["{pep440_version}"]]
+    for _ in range(rng.randint(1, 4)):
+        rows.append([rng.choice(kinds) for _ in range(rng.choice([1, 2, 2, 3]))])
+    if rng.random() < 0.7:
+        rows.append(["{version}", "{version}"] + ([rng.choice(kinds)] if rng.random() < 0.4 else []))
+    rng.shuffle(rows)
+    lines = []
+    if rng.random() < 0.6:
+        lines.append({"segs": [filler(rng, "plain", False)], "end": sep})
+    for row in rows:
+        segs = [filler(rng, "plain", False) + " " if rng.random() < 0.5 else ""]
+        head = rng.choice(heads)
+        if row[0] == "{pep440_version}" and head == "":
+            head = "= "
+        segs[0] += head
+        for i, region in enumerate(row):
+            if i:
+                segs.append(rng.choice(joins))
+            segs.append({"slot": region, "pat": kinds.index(region)})
+        tail = rng.choice(tails)
+        if tail:
+            segs.append(tail)
+        segs = [x for x in segs if x != ""]
+        lines.append({"segs": segs, "end": sep})
+        if rng.random() < 0.3:
+            lines.append({"segs": [filler(rng, "plain", False)], "end": sep})
+    if rng.random() < 0.3:
+        lines[-1]["end"] = ""
+    return {"path": path, "patterns": list(kinds), "lines": lines, "regime": regime, "shared_lines": sum(1 for r in rows if len(r) > 1),
+            "bare": True, "overlap": True}
 
 
 def config_glob_key(syntax, kind="glob"):
@@ -251,6 +310,14 @@ def gen_project(rng, mode="plain", syntaxes=None, allow_mixed=True, max_files=4,
                              "suffix": ""})
             f = gen_file(rng, path, pats, mode, regime)
         files.append(f)
+    # README style: the bare patterns {version} and {pep440_version} for one file; every {version} text also contains a
+    # match of the second pattern, which the first one's match must shadow (documented: earlier patterns win)
+    # (a 'dev' tag puts the text "v0" into the PEP 440 form "1.2.dev0", which `vMAJOR...` would match: only patterns
+    # without a tag, or with a four digit year right after the "v", are unambiguous)
+    if pep_ok and not legacy and vpattern.startswith("v") and pep_friendly(vpattern) and rng.random() < 0.14 and \
+            (vpattern[1:5] in ("YYYY", "GGGG") or not (set(rp.fields_of(tree)) & {"tag", "pytag"})):
+        opath = rng.choice([p for p in ["docs/overview.md", "USAGE.md", "site/install.txt"] if p not in paths])
+        files.append(gen_overlap_file(rng, opath, rng.choice(["lf", "lf", "crlf", "cr"])))
     # a group of files reached only through one recursive glob, at several depths and through dot-directories
     if allow_glob and not ini and rng.random() < 0.15:
         gpaths = rng.sample(["top.ver", "src/pkg/sub/deep/x.ver", ".hidden/y.ver", "src/.dot.ver", "src/one.ver"], rng.randint(2, 4))
@@ -297,7 +364,7 @@ def gen_project(rng, mode="plain", syntaxes=None, allow_mixed=True, max_files=4,
             import fnmatch
             if sum(1 for g in files if fnmatch.fnmatch(g["path"], key)) != 1:
                 key = path
-        if allow_glob and r > 0.9 and len(f["patterns"]) >= 2 and all(ch not in path for ch in "[]*?"):
+        if allow_glob and r > 0.9 and len(f["patterns"]) >= 2 and all(ch not in path for ch in "[]*?") and not f.get("overlap"):
             cut = rng.randint(1, len(f["patterns"]) - 1)
             tail = path.rsplit("/", 1)[-1]
             gkey = path[:len(path) - len(tail)] + tail[0] + "*" + tail[1:] if len(tail) > 1 else path
